@@ -136,3 +136,63 @@ Proof.
   - vm_compute; reflexivity.
   - vm_compute; reflexivity.
 Qed.
+
+(** the link, end to end, for records without digest fields (the builder's and the reader's
+    add-missing-digest option off): whatever the strict builder returns for clean header fields
+    and ANY content is read back from its serialization as exactly that record - version, type,
+    ordered fields, block - with no error and no finding, under EVERY reader policy, followed by
+    anything.  The block policy is the one axis that needs a side condition: the builder rejects
+    block problems (fail) or the reader ignores them. *)
+Theorem C01_strictly_built_record_round_trips_without_digests :
+  forall uni_lower uni_upper time_ok ip_ok uri_ok wid_ok mime_dec H b32 b64 http_req_ok http_resp_ok
+         bo o vid rt0 hs content new_id r fnd hs_out d0 d1 rest tl,
+    (vid = 1 \/ vid = 2) -> canonical field_table uni_lower hs ->
+    (forall f, In f hs -> wf_field field_table uni_lower f) ->
+    m_has field_table uni_lower n_content_length hs = false ->
+    m_has field_table uni_lower n_block_digest hs = false ->
+    m_has field_table uni_lower n_payload_digest hs = false ->
+    m_has field_table uni_lower n_record_id hs = true ->
+    (rt0 = 0 \/ rt0 = rt_of uni_lower hs) ->
+    o_spec bo = Fail -> o_unknown bo = Fail -> o_syntax bo = Fail ->
+    (o_block bo = Fail \/ o_block o = Ignore) ->
+    o_add_cl bo = true -> o_add_digest bo = false -> o_add_digest o = false -> o_fix_wfblock bo = false ->
+    o_skip_parse o = o_skip_parse bo ->
+    new_digest uni_lower uni_upper (o_alg bo) (o_enc bo) = Some d0 -> d_hash d0 = [] ->
+    new_digest uni_lower uni_upper (o_alg o) (o_enc o) = Some d1 -> d_hash d1 = [] ->
+    (Z.of_nat (List.length content) <= int64_max)%Z ->
+    build field_table required_fields uni_lower uni_upper time_ok ip_ok uri_ok wid_ok mime_dec H b32 b64
+          http_req_ok http_resp_ok bo vid rt0 hs content new_id = (Ok r fnd, hs_out) ->
+    parse_record field_table required_fields uni_lower uni_upper time_ok ip_ok uri_ok wid_ok mime_dec H b32 b64
+                 http_req_ok http_resp_ok o (mkst (marshal r ++ rest) tl) []
+    = URec r None [] (mkst rest tl).
+Proof. intros. eapply built_record_round_trips_without_digests; eassumption. Qed.
+Print Assumptions C01_strictly_built_record_round_trips_without_digests.
+
+(** non-vacuity: a strict builder without digests accepts this response, whose payload imitates
+    the end-of-record marker and the start of another record *)
+Definition exn_opts := mkopts Fail Fail Fail Fail false true true false true true false false (bs "sha1") Base32.
+Definition exn_hs : fields :=
+  [(bs "WARC-Type", bs "response"); (bs "WARC-Record-ID", bs "<urn:uuid:e9a0cecc-0221-11e7-adb1-0242ac120008>");
+   (bs "WARC-Date", bs "2017-03-06T04:03:53Z");
+   (bs "WARC-Target-URI", bs "http://example.com/a"); (bs "Content-Type", bs "application/http;msgtype=response")]%string.
+Definition exn_content : bytes :=
+  List.app (bs "HTTP/1.1 200 OK") (List.app [13;10] (List.app (bs "Content-Type: text/plain") (List.app [13;10;13;10]
+    (List.app (bs "a") (List.app [13;10;13;10] (bs "WARC/1.1")))))).
+Definition exn_build := build field_table required_fields ex_idb ex_idb ex_yes ex_yes ex_yes ex_yes ex_nodec exb_h ex_nodec ex_nodec
+                              ex_yes ex_yes exn_opts 2 2 exn_hs exn_content [].
+Example C01_no_digest_hypotheses_are_satisfiable :
+  canonical field_table ex_idb exn_hs /\
+  (forall f, In f exn_hs -> wf_field field_table ex_idb f) /\
+  m_has field_table ex_idb n_record_id exn_hs = true /\
+  2 = rt_of ex_idb exn_hs /\
+  (exists d, new_digest ex_idb ex_idb (o_alg exn_opts) (o_enc exn_opts) = Some d /\ d_hash d = []) /\
+  is_ok (fst exn_build) = true.
+Proof.
+  split; [|split; [|split; [|split; [|split]]]].
+  - intros f [<-|[<-|[<-|[<-|[<-|[]]]]]]; vm_compute; reflexivity.
+  - intros f [<-|[<-|[<-|[<-|[<-|[]]]]]]; constructor; vm_compute; reflexivity.
+  - vm_compute; reflexivity.
+  - vm_compute; reflexivity.
+  - eexists. split; vm_compute; reflexivity.
+  - vm_compute; reflexivity.
+Qed.
